@@ -92,7 +92,7 @@ def generate(rng, tier, prop):
                 scale = rng.choice([50, 300, 1200, 3000])
             else:
                 scale = rng.choice([300, 1200, 3000, 10_000, 30_000, 100_000])
-            if fam in ("deep_nesting", "deep_unclosed"):
+            if fam in ("deep_nesting", "deep_unclosed", "deep_nesting_blocks", "deep_quote_nesting"):
                 scale = min(scale, 20_000)
             cfg["docs"].append({"big": fam, "scale": scale, "seed": rng.randrange(1 << 30)})
             cfg["encoding"] = enc = "utf-8"
@@ -132,7 +132,8 @@ def generate(rng, tier, prop):
             fl.append(f)
         ops.append({"op": "splice", "d1": 0, "mid": 1, "d2": 2, "other": 3, "faults": fl,
                     "glue": rng.choice(["\n", "\n", "\n\n", "", " \n"]),
-                    "raw_x": rng.choice([None, None, None, 0, 1, 2, 3, 4, 5, 6, 7])})
+                    "raw_x": rng.choice([None, None, None, 0, 1, 2, 3, 4, 5, 6, 7]),
+                    "no_d2": rng.random() < 0.25})
     elif prop == "C05":
         cfg["docs"].append(_slim(_doc(rng, tier, enc)))
         writer = rng.choice(["foreign", "foreign", "library"])
@@ -623,10 +624,12 @@ def _splice(res, op, cfg, docs, step, V, guarded):
     b2 = list(d2["blocks"])
     while b2 and b2[0]["kind"] == "icomment":
         b2.pop(0)
-    if not b2:
+    if op.get("no_d2"):
+        b2 = []          # first clause of the statement alone: D1 followed by arbitrary text up to EOF
+    elif not b2:
         res.precondition_miss += 1
         return
-    D2 = d2["text"][b2[0]["span"][0]:]
+    D2 = d2["text"][b2[0]["span"][0]:] if b2 else ""
     if op.get("raw_x") is not None:
         X = RAW_X[op["raw_x"] % len(RAW_X)]
         res.faults["raw_garbage"] += 1
@@ -658,7 +661,7 @@ def _splice(res, op, cfg, docs, step, V, guarded):
 
     try:
         p1 = _parse_blocks(D1) if D1 else []
-        p2 = _parse_blocks(D2)
+        p2 = _parse_blocks(D2) if D2 else []
     except Exception:
         res.precondition_miss += 1
         return
@@ -701,6 +704,8 @@ def _splice(res, op, cfg, docs, step, V, guarded):
         res.probes["abort:" + c] += 1
     if X.rstrip().endswith("\\"):
         res.probes["x_ends_in_backslash"] += 1
+    if not p2:
+        res.probes["no_suffix_document"] += 1
     if p2 and isinstance(p2[0], M.Entry):
         res.probes["d2_starts_with_entry"] += 1
     elif p2:
@@ -709,54 +714,24 @@ def _splice(res, op, cfg, docs, step, V, guarded):
     res.event(step, "splice", (",".join(f["kind"] for f in op["faults"]) or str(op.get("raw_x"))) + ":" + hexdigest_of(text, 8), "")
 
 
-def on_timeout(run, props):
+SHRINK_TIMEOUT = 5
+
+
+def execute_traced(run, props):
     """A run hit the wall-clock watchdog: re-judge it deterministically under the step budget."""
     return execute(run, props, force_trace=True)
 
 
-def simplifications(run):
-    """Freeze (seed+faults -> one verbatim damaged document), then shrink the text."""
-    cfg, ops = run["config"], run["ops"]
-    base = {"machine": run.get("machine")}
-    first_load = next((i for i, o in enumerate(ops) if o["op"] == "load"), None)
-    frozen = len(cfg["docs"]) == 1 and "text" in cfg["docs"][0] and first_load is not None and \
-        all(o["op"] == "seed" and o.get("writer") == "foreign" for o in ops[:first_load]) and first_load == 1
-    if first_load is not None and not frozen and not any(o["op"] == "splice" for o in ops):
-        # execute the prefix to obtain the text the parser saw
-        try:
-            r = execute({"config": cfg, "ops": ops[: first_load + 1]}, ("C01",))
-            text = r.artifacts.get("last_text")
-        except Exception:
-            text = None
-        if text is not None:
-            ncfg = dict(cfg, docs=[{"text": text, "blocks": []}], encoding="utf-8", trace=cfg.get("trace"))
-            ld = dict(ops[first_load])
-            yield dict(base, config=ncfg, ops=[{"op": "seed", "path": ld["path"], "doc": 0, "writer": "foreign"}] + ops[first_load:])
-            yield dict(base, config=ncfg, ops=[{"op": "seed", "path": ld["path"], "doc": 0, "writer": "foreign"}, dict(ld, via="string")] + ops[first_load + 1:])
-    if frozen:
-        text = cfg["docs"][0]["text"]
-        n = len(text)
-        # delete line ranges, then character ranges, large to small
-        lines = text.split("\n")
-        size = max(1, len(lines) // 2)
-        while size >= 1:
-            for i in range(0, len(lines), size):
-                cand = "\n".join(lines[:i] + lines[i + size:])
-                if cand != text:
-                    yield dict(base, config=dict(cfg, docs=[{"text": cand, "blocks": []}]), ops=ops)
-            size //= 2
-        size = max(1, n // 2)
-        while size >= 1:
-            for i in range(0, n, size):
-                cand = text[:i] + text[i + size:]
-                yield dict(base, config=dict(cfg, docs=[{"text": cand, "blocks": []}]), ops=ops)
-            size //= 2
-        for a, b in (("\r\n", "\n"),):
-            if a in text:
-                yield dict(base, config=dict(cfg, docs=[{"text": text.replace(a, b), "blocks": []}]), ops=ops)
-    for i, o in enumerate(ops):
-        if o["op"] == "fault":
-            yield dict(base, config=cfg, ops=ops[:i] + ops[i + 1:])
-        if o["op"] == "splice" and o.get("faults"):
-            for j in range(len(o["faults"])):
-                yield dict(base, config=cfg, ops=ops[:i] + [dict(o, faults=o["faults"][:j] + o["faults"][j + 1:])] + ops[i + 1:])
+def stuck_result(run, props, waited_s):
+    """Neither the plain nor the traced execution returned: the time is spent inside a call that
+    executes no line of bibtexparser (in practice the regular-expression engine)."""
+    res = RunResult()
+    n = sum(len(d.get("text", "")) for d in _materialise(run["config"]))
+    if props[0] == "C01":
+        res.violate("C01", "hang", "C01/hang/stuck-in-one-call", max(0, len(run["ops"]) - 1),
+                    f"the run did not return within {waited_s:.0f} s of wall-clock time on documents of {n} characters in total "
+                    f"(such runs normally take milliseconds) and stayed below the line-event budget: one call that executes no "
+                    f"Python line (the mark regex) does not come back")
+    else:
+        res.precondition_miss += 1
+    return res
